@@ -373,12 +373,21 @@ pub fn run(cfg: &J) -> J {
     let mut rng = rand::rngs::StdRng::seed_from_u64(cfg["seed"].as_u64().unwrap_or(1));
     let nm = cfg["mutated"].as_u64().unwrap_or(2000);
     let mut mutated_bytes = 0u64;
+    // besides the fixed alphabet: the specification's token corpus and byte strings that fail in ways of their own
+    // (over-long digit runs, every kind of ill-formed four-byte sequence)
+    let mut extra: Vec<Vec<u8>> = cfg["alphabet_extra"].as_array().map(|a| a.iter().map(j_bytes).collect()).unwrap_or_default();
+    for x in [&b"18446744073709551616"[..], b"99999999999999999999999999", b"\xF4\x90\x80\x80", b"\xF5\x80\x80\x80", b"\xF7\xBF\xBF\xBF", b"\xED\xA0\x80",
+              b"\xC0\xAF", b"\xE0\x80\x80", b"\xF0\x80\x80\x80", b"\xF4\x8F\xBF\xBF", b"#\\", b"?", b"?\\", b" ", b"(", b")"] {
+        extra.push(x.to_vec());
+    }
     for i in 0..nm {
         let n = if i % 10 == 0 { rng.gen_range(200..1500) } else { rng.gen_range(1..40) };
         let mut t = Vec::new();
         for _ in 0..n {
             if rng.gen_ratio(1, 12) {
                 t.push(rng.gen::<u8>());
+            } else if i % 3 == 2 {
+                t.extend_from_slice(&extra[rng.gen_range(0..extra.len())]);
             } else {
                 t.extend_from_slice(MUT_ALPHABET[rng.gen_range(0..MUT_ALPHABET.len())]);
             }
